@@ -113,7 +113,7 @@ func c08Run(t *testing.T, c c08Case, ch *seqx.Chooser) (kind, what string, trace
 			}
 			// a master that is not ready answers the reconnect PSYNC with an error (once per execution):
 			// the tool waits and dials again, and must ask for the same position
-			refuseNext, refusals := false, 0
+			refuseNext, refusals, keepOpen := false, 0, false
 			refusedPsync := map[int]bool{}
 			m.PsyncReply = func(p msource.Psync) string {
 				if refuseNext {
@@ -127,24 +127,29 @@ func c08Run(t *testing.T, c c08Case, ch *seqx.Chooser) (kind, what string, trace
 				dials++
 				nd := 3
 				if c.Refusals && refusals == 0 {
-					nd = 4
+					nd = 5
 				}
 				d := ch.Choose(nd)
 				if d == 1 {
 					trace = append(trace, "dial-refused")
 					return nil, errors.New("connection refused"), true
 				}
-				if d == 3 {
+				if d == 3 || d == 4 {
 					refuseNext = true
 					refusals++
-					trace = append(trace, "dial-ok(PSYNC answered -LOADING)")
+					keepOpen = d == 4
+					if keepOpen {
+						trace = append(trace, "dial-ok(PSYNC answered -LOADING, the link stays open)")
+					} else {
+						trace = append(trace, "dial-ok(PSYNC answered -LOADING)")
+					}
 				}
 				piggyback = d == 2
 				cc, sc := memconn.Pair(fmt.Sprintf("source%d", dials))
 				go m.Serve(sc)
 				if piggyback {
 					trace = append(trace, "dial-ok(+CONTINUE and 7 stream bytes in one write)")
-				} else if d != 3 {
+				} else if d < 3 {
 					trace = append(trace, "dial-ok")
 				}
 				return cc, nil, true
@@ -215,8 +220,9 @@ func c08Run(t *testing.T, c c08Case, ch *seqx.Chooser) (kind, what string, trace
 						bad("psync-offset", fmt.Sprintf("reconnect sends PSYNC %s %d, expected PSYNC run-1 %d (start %d + %d bytes received + 1)", p.RunID, p.Offset, want, c.Start, sentThen))
 					}
 					if refusedPsync[seenPsyncs+i] {
-						// the master said no: it closes the link, nothing flows on it
-						if cn := m.Conn(p.Conn); cn != nil {
+						// the master said no; it either closes the link or, like a loading redis, keeps it
+						// open: whatever the tool sends on it next is judged like any other PSYNC
+						if cn := m.Conn(p.Conn); cn != nil && !keepOpen {
 							cn.(*memconn.Conn).Cut()
 						}
 						continue
